@@ -1256,6 +1256,45 @@ def printed_type_not_edited_rule(cx, rep, rid):
     rep.floor(rid, "functions that hold printed type text", n, 10)
 
 
+def cyclic_input_rule(cx, rep, rid):
+    """C03.23.  No input makes validate / safeParse / parse throw anything but parse's documented error - a cyclic
+    object is an input.  A validator recurses on the input only as deep as the TYPE does, except through a named
+    reference of a recursive type, where type and input can go round together for ever.  Decided: the methods of the
+    reference class (the class that looks its target up by name and delegates) that walk the input - validate,
+    parseAfterValidation, reportDecodeError - test something kept in the context (a set of (name, input) pairs on the
+    current path, a depth budget) before they delegate.  Today they delegate unconditionally: `type L = {next: L |
+    null}` with `a.next = a` makes all three entry points throw RangeError (maximum call stack size exceeded)."""
+    from rules.ts_common import Family
+    fam = Family(cx)
+    mod = fam.mod
+    n = 0
+    for cname, c in sorted(fam.classes.items()):
+        v = c.methods.get("validate")
+        if not v or v["function"].get("body") is None:
+            continue
+        fn = v["function"]
+        # the reference class: its validate fetches the target out of a table by a name field and delegates
+        inp = (_params(fn) + [None, None])[1]
+        lookups = [x for x in twalk(fn) if x["type"] == "MemberExpression" and x["property"]["type"] == "Computed" and ts_s(x["property"]["expression"]).startswith("this.")
+                   and unparen(x["object"]).get("type") == "CallExpression" and _ident(unparen(x["object"])) != inp]
+        delegs = [x for x in twalk(fn) if x["type"] == "CallExpression" and ts_s(x["callee"]).endswith(".validate")]
+        if not lookups or not delegs or len(list(twalk(fn))) > 80:
+            continue
+        for mname in ("validate", "parseAfterValidation", "reportDecodeError"):
+            m = c.methods.get(mname)
+            if not m or m["function"].get("body") is None:
+                continue
+            f2 = m["function"]
+            ps = _params(f2)
+            ctxn = ps[0] if ps else None
+            guards = [x for x in twalk(f2) if x["type"] in ("IfStatement", "ConditionalExpression") and ctxn and any(_ident(y) == ctxn for y in twalk(x["test"]))]
+            n += 1
+            rep.ob(rid, "%s.%s/bounded-on-cyclic-input" % (cname, mname), bool(guards),
+                   "%s.%s follows a named reference on the same input without consulting anything in the context (no set of (name, input) pairs on the path, no depth budget): for a recursive type and a CYCLIC input the type and the value go round together - `type L = {next: L | null}` with `a.next = a` makes validate, safeParse and parse throw RangeError: Maximum call stack size exceeded instead of answering (or failing with parse's documented error)"
+                   % (cname, mname), mod.loc(f2), sample={"class": cname, "method": mname})
+    rep.floor(rid, "input-walking methods of the reference class", n, 2)
+
+
 def synthetic_name_digest_rule(cx, rep, rid):
     """C16.11 (= C02.23).  A definition name that the runtime makes up for a STRUCTURE (the variants of a discriminated
     union) is the identity of that structure inside a printing context: two different structures under one name means
@@ -1380,7 +1419,8 @@ REGISTRY = {
     "C08": [("C08.18", "the metadata of a type (descriptions from comments) decides nothing outside the printer", metadata_free_structure_rule),
             ("C08.17", "the scope of a declaration's type parameters covers every part of the declaration that is converted", declaration_scope_rule),
             ("C08.16", "no runtime class reads a property of the input through an own-only (hasOwnProperty-guarded) getter", own_only_read_rule)],
-    "C03": [("C03.22", "the deep merge of parse results drops no key because of its name (no name filter, no `in` on data)", merge_keeps_keys_rule),
+    "C03": [("C03.23", "following a named reference is bounded on cyclic inputs (the context is consulted before delegating)", cyclic_input_rule),
+            ("C03.22", "the deep merge of parse results drops no key because of its name (no name filter, no `in` on data)", merge_keeps_keys_rule),
             ("C03.21", "a class with child validators hands back the input itself only where a test established it is not an object", composite_parse_rule)],
     "C10": [("C10.8", "every change event reaches the compiler's registry: the watch glue forwards updates unconditionally (C14.10, C14.6 lifted) - a dropped event makes the output depend on the order in which changed files are registered",
              lambda cx, rep, rid: lift_rule(cx, rep, rid, "C14", ["C14.10", "C14.6"], "so whether a changed file is registered depends on which change event arrives first"))],
